@@ -827,8 +827,9 @@ class Fn:
             return d['p']['pr'][-1].get('ty')
         return None
 
-    def guard_atoms(self, b):
-        """guards(b) normalised to atoms (see atom_of)"""
+    def guard_atoms(self, b, derived=False):
+        """guards(b) normalised to atoms (see atom_of); with derived=True the facts implied by combinator chains and local predicate
+        getters (derived_atoms) are appended — opt-in, because rules that enumerate "no other condition" must see the decisions only"""
         out = []
         for (s, cond, val) in self.guards(b):
             if self.term(s)['k'] == 'assert':
@@ -837,8 +838,9 @@ class Fn:
             if a is not None:
                 a = untry(a)
                 out.append((s, a))
-                for d in self.derived_atoms(a):
-                    out.append((s, d))
+                if derived:
+                    for d in self.derived_atoms(a):
+                        out.append((s, d))
         return out
 
     def derived_atoms(self, a, depth=4):
@@ -1423,6 +1425,8 @@ class Program:
         if os.path.exists(bp) and not os.environ.get('DES_NO_BASELINE'):
             base = json.load(open(bp))
             self.baseline_callers = base.get('callers', {}) if isinstance(base, dict) and 'fns' in base else {}
+            if isinstance(base, dict) and cfg in (base.get('callers_by_cfg') or {}):
+                self.baseline_callers = base['callers_by_cfg'][cfg]
             self.baseline_fp = base.get('fp', {}) if isinstance(base, dict) else {}
             self.baseline_adts = base.get('adts') if isinstance(base, dict) else None
             if isinstance(base, dict) and 'fns' in base:
@@ -1906,6 +1910,15 @@ def _local_callees(P, f):
     return out
 
 
+def _callees_with_closures(P, f):
+    """callees of f and of the closures written in it (the baseline attributes a closure's calls to its root function)"""
+    out = set(_local_callees(P, f))
+    for g in P.fn_list:
+        if g.kind == 'closure' and g.root == f.key:
+            out |= _local_callees(P, g)
+    return out
+
+
 def apply_renames(P, base):
     """A function of the pinned tree that no longer exists while exactly one NEW function with the same parent path and the
     same signature appeared is treated as renamed: the new function answers to the old key (rules anchor on pinned names).
@@ -1944,8 +1957,8 @@ def apply_renames(P, base):
             old_callees = {c for c, callers in getattr(P, 'baseline_callers', {}).items() if k in callers and c in P.fns}
             old_callers = set(getattr(P, 'baseline_callers', {}).get(k, []))
             cs = [f for f in new if fn_signature(f) == base[k] and len(base[k]) > 1 and module_of(parent(f.key)) == module_of(parent(k))
-                  and old_callees <= _local_callees(P, f)
-                  and any(f.key in _local_callees(P, P.fns[c]) for c in old_callers if c in P.fns)]
+                  and old_callees <= _callees_with_closures(P, f)
+                  and any(f.key in _callees_with_closures(P, P.fns[c]) for c in old_callers if c in P.fns)]
         if not cs and len(base[k]) > 1:
             # a type was split (`Harness` -> `Harness` + `Outcome`): a method keeps its name, module, result and other parameters, only its
             # receiver is the NEW type; it still calls what the old one called and a pinned caller of the old method calls it now
@@ -1966,13 +1979,29 @@ def apply_renames(P, base):
                   and old_callees <= _local_callees(P, f) | {c for g in P.fn_list if g.kind == 'closure' and g.root == f.key for c in _local_callees(P, g)}
                   and any(f.key in _local_callees(P, P.fns[c]) or any(f.key in _local_callees(P, g) for g in P.fn_list if g.kind == 'closure' and g.root == c)
                           for c in old_callers if c in P.fns)]
+        if not cs and len(base[k]) > 1:
+            # a method whose receiver record was unpacked into parameters (`ev.handle_with_sink(sink)` -> `forward_message(ev.con, ev.msg, sink)`):
+            # the receiver's field types replace the receiver in the signature; still calls what the old one called, pinned callers call it
+            badts2 = getattr(P, 'baseline_adts', None) or {}
+            recv = strip_generics(base[k][1].lstrip('&').replace('mut ', '').strip())
+            rec = badts2.get(recv)
+            if rec and rec.get('kind') == 'struct' and len(rec.get('variants', [])) == 1:
+                ftys = sorted(ty for _, ty in rec['variants'][0][1])
+                old_callees = {c for c, callers in getattr(P, 'baseline_callers', {}).items() if k in callers and c in P.fns}
+                old_callers = set(getattr(P, 'baseline_callers', {}).get(k, []))
+                def unpacked(f):
+                    sg = fn_signature(f)
+                    n = len(ftys)
+                    return len(sg) == len(base[k]) - 1 + n and sg[0] == base[k][0] and sorted(sg[1:1 + n]) == ftys and sg[1 + n:] == base[k][2:]
+                cs = [f for f in new if unpacked(f) and old_callees <= _callees_with_closures(P, f)
+                      and any(f.key in _callees_with_closures(P, P.fns[c]) for c in old_callers if c in P.fns)]
         if not cs:
             # second tier: same argument types, the return type was changed along with the name (Result<T, ()> -> Option<T> ...) —
             # only if the candidate still calls every pinned function the old one called (otherwise it is a new helper that took
             # over a *part* of the old body, and the rest went to the caller)
             old_callees = {c for c, callers in getattr(P, 'baseline_callers', {}).items() if k in callers and c in P.fns}
             cs = [f for f in new if parent(f.key) == parent(k) and fn_signature(f)[1:] == base[k][1:] and len(base[k]) > 1
-                  and old_callees <= _local_callees(P, f)]
+                  and old_callees <= _callees_with_closures(P, f)]
         if len(cs) == 1:
             cand[k] = cs[0]
     # several functions of one parent and signature renamed together (`vclone`, `vclone_panic` -> `erased_clone`, `erased_clone_unsupported`):
